@@ -14,6 +14,11 @@ package main
 //   C01 convertx-panic / convertx-error / convertx-slow      every conversion
 //   C11 extension-changes-trigger-free-document-<member>     source without the member's trigger byte (`~`, `[`, `-`):
 //                                                            output with the member == output of the same configuration without it
+//   C11 consultation-flush-changes-output                     op `htmlf` (every document that is also converted with Linkify):
+//                                                            the member set next to an inline parser with Linkify's Trigger() and
+//                                                            priority whose Parse returns nil (what is left of Linkify when it
+//                                                            declines: Advance, the flush of the pending text, SetPosition —
+//                                                            model GM.ConvertX.convertFlush) == the member set alone
 //   C17 table-not-rectangular (AST) / table-html-not-rectangular (HTML of the safe option set)   every cfg with Table
 
 import (
@@ -28,15 +33,17 @@ import (
 	"github.com/yuin/goldmark/ast"
 	"github.com/yuin/goldmark/extension"
 	east "github.com/yuin/goldmark/extension/ast"
+	"github.com/yuin/goldmark/parser"
 	"github.com/yuin/goldmark/renderer"
 	"github.com/yuin/goldmark/renderer/html"
 	"github.com/yuin/goldmark/text"
+	"github.com/yuin/goldmark/util"
 )
 
 func init() {
 	register(&Component{
 		Name:       "convertx",
-		Rule:       "whole documents x the 8 subsets of {Strikethrough, TaskList, Table} x 8 renderer option sets: all strings up to a length bound over alphabets that contain the members' syntax (complete), inside list-item / table contexts (complete), the repo corpora (extension/_test/*.txt, _test/*.txt, spec.json), generated / mutated documents, random strings over the alphabets and a token list; non-trivial = output with >= 2 distinct tags one of which is del / input / table; distinct = distinct (cfg, tag multiset)",
+		Rule:       "whole documents x the 8 subsets of {Strikethrough, TaskList, Table} (op html, cfg 0-7), these with Linkify (cfg 8-15; 15 = the members of extension.GFM, also compared with a real extension.GFM instance) and, for every document converted with Linkify, the member set next to an inline parser with Linkify's triggers whose Parse returns nil (op htmlf), x 8 renderer option sets: all strings up to a length bound over alphabets that contain the members' syntax (complete), inside list-item / table contexts (complete), the repo corpora (extension/_test/*.txt, _test/*.txt, spec.json), generated / mutated documents, random strings over the alphabets and a token list; non-trivial = output with >= 2 distinct tags one of which is del / input / table; distinct = distinct (cfg, tag multiset)",
 		Gen:        genConvertX,
 		Impl:       implConvertX,
 		Exhaustive: true,
@@ -50,11 +57,21 @@ func init() {
 }
 
 var cvxOnce sync.Once
-var cvxMD [8][8]goldmark.Markdown
+var cvxMD [16][8]goldmark.Markdown
+var cvxGFM [8]goldmark.Markdown
+var cvxNull [8][8]goldmark.Markdown
+
+// cvxNullParser: Linkify's Trigger() (linkify.go:166-168), a Parse that returns nil
+type cvxNullParser struct{}
+
+func (cvxNullParser) Trigger() []byte { return []byte{' ', '*', '_', '~', '('} }
+func (cvxNullParser) Parse(parent ast.Node, block text.Reader, pc parser.Context) ast.Node {
+	return nil
+}
 
 func cvxInit() {
 	cvxOnce.Do(func() {
-		for c := 0; c < 8; c++ {
+		for c := 0; c < 16; c++ {
 			for i := 0; i < 8; i++ {
 				var opts []renderer.Option
 				if i&4 != 0 {
@@ -76,13 +93,27 @@ func cvxInit() {
 				if c&4 != 0 {
 					exts = append(exts, extension.Table)
 				}
+				if c&8 != 0 {
+					exts = append(exts, extension.Linkify)
+				}
 				cvxMD[c][i] = goldmark.New(goldmark.WithExtensions(exts...), goldmark.WithRendererOptions(opts...))
+				if c < 8 {
+					cvxNull[c][i] = goldmark.New(goldmark.WithExtensions(exts...), goldmark.WithRendererOptions(opts...),
+						goldmark.WithParserOptions(parser.WithInlineParsers(util.Prioritized(cvxNullParser{}, 999))))
+				}
+				if c == 15 {
+					cvxGFM[i] = goldmark.New(goldmark.WithExtensions(extension.GFM), goldmark.WithRendererOptions(opts...))
+				}
 			}
 		}
 	})
 }
 
 func cvxConvert(c, i int, src []byte) (out []byte, fail *OracleFail) {
+	return cvxConvertWith(cvxMD[c][i], c, i, src)
+}
+
+func cvxConvertWith(md goldmark.Markdown, c, i int, src []byte) (out []byte, fail *OracleFail) {
 	defer func() {
 		if r := recover(); r != nil {
 			fail = &OracleFail{"C01", "convertx-panic", fmt.Sprintf("cfg %d option set %d: %v", c, i, r)}
@@ -93,7 +124,7 @@ func cvxConvert(c, i int, src []byte) (out []byte, fail *OracleFail) {
 	copy(buf, src)
 	var w bytes.Buffer
 	t0 := time.Now()
-	if err := cvxMD[c][i].Convert(buf, &w); err != nil {
+	if err := md.Convert(buf, &w); err != nil {
 		return w.Bytes(), &OracleFail{"C01", "convertx-error", fmt.Sprintf("cfg %d option set %d: %v", c, i, err)}
 	}
 	if d := time.Since(t0); d > 5*time.Second {
@@ -102,7 +133,7 @@ func cvxConvert(c, i int, src []byte) (out []byte, fail *OracleFail) {
 		for k := 0; k < 2 && d > 5*time.Second; k++ {
 			var w2 bytes.Buffer
 			t1 := time.Now()
-			_ = cvxMD[c][i].Convert(buf, &w2)
+			_ = md.Convert(buf, &w2)
 			if d2 := time.Since(t1); d2 < d {
 				d = d2
 			}
@@ -118,7 +149,15 @@ var cvxMembers = []struct {
 	bit     int
 	name    string
 	trigger byte
-}{{1, "strikethrough", '~'}, {2, "tasklist", '['}, {4, "table", '-'}}
+}{{1, "strikethrough", '~'}, {2, "tasklist", '['}, {4, "table", '-'}, {8, "linkify", 0}}
+
+// C11's trigger set of a member occurs in the source (Linkify: ':' , '@' or "www.")
+func cvxHasTrigger(bit int, trigger byte, src []byte) bool {
+	if bit == 8 {
+		return bytes.IndexByte(src, ':') >= 0 || bytes.IndexByte(src, '@') >= 0 || bytes.Contains(src, []byte("www."))
+	}
+	return bytes.IndexByte(src, trigger) >= 0
+}
 
 // C17 on the AST the real parser builds
 func cvxTablesAST(c int, src []byte) (fail *OracleFail, tables int) {
@@ -226,12 +265,15 @@ func cvxTablesHTML(out []byte) string {
 
 func implConvertX(c Case) ImplResult {
 	cvxInit()
+	if c.Op == "htmlf" && len(c.Args) == 2 {
+		return implConvertXFlush(c)
+	}
 	if c.Op != "html" || len(c.Args) != 2 {
 		return ImplResult{Out: "bad-op", NoModel: true}
 	}
 	cfg := 0
 	fmt.Sscanf(c.Args[0], "%d", &cfg)
-	cfg &= 7
+	cfg &= 15
 	src := unhx(c.Args[1])
 	var res ImplResult
 	addFail := func(f *OracleFail) {
@@ -247,7 +289,7 @@ func implConvertX(c Case) ImplResult {
 	}
 	// C11 on the real outputs
 	for _, m := range cvxMembers {
-		if cfg&m.bit == 0 || bytes.IndexByte(src, m.trigger) >= 0 {
+		if cfg&m.bit == 0 || cvxHasTrigger(m.bit, m.trigger, src) {
 			continue
 		}
 		res.Stats = append(res.Stats, "c11-checked-"+m.name)
@@ -271,7 +313,8 @@ func implConvertX(c Case) ImplResult {
 		addFail(f)
 		if n > 0 {
 			res.Stats = append(res.Stats, "docs-with-table")
-			// the Lean-defined C17 oracle on the tree the MODEL renders (GM.ConvertX.rectB): the driver must answer ok
+			// the Lean-defined C17 oracles on the tree the MODEL renders (GM.ConvertX.rectB) and on the node store its block
+			// phase ends in (GM.ConvertX.rectT, the hypothesis of tables_rectangular_of_store): the driver must answer ok
 			res.Checks = append(res.Checks, ModelCheck{Line: "convertx rect " + c.Args[0] + " " + c.Args[1] + " " + cvUC(src), Property: "C17"})
 		}
 		for _, i := range []int{0, 3} {
@@ -291,7 +334,31 @@ func implConvertX(c Case) ImplResult {
 		}
 	}
 	res.Out = "g0 " + strings.Join(parts, " ")
-	res.ModelLine = "convertx html " + c.Args[0] + " " + c.Args[1] + " " + cvUC(src)
+	if cfg >= 8 {
+		res.ModelLine = "convertx htmll " + c.Args[0] + " " + c.Args[1] + " " + cvUC(src)
+	} else {
+		res.ModelLine = "convertx html " + c.Args[0] + " " + c.Args[1] + " " + cvUC(src)
+	}
+	// C11, last clause: extension.GFM behaves exactly as its four members (on the real outputs)
+	if cfg == 15 {
+		for _, i := range []int{0, 3, 4, 7} {
+			var w bytes.Buffer
+			buf := make([]byte, len(src))
+			copy(buf, src)
+			func() {
+				defer func() { _ = recover() }()
+				_ = cvxGFM[i].Convert(buf, &w)
+			}()
+			if !bytes.Equal(w.Bytes(), outs[i]) {
+				addFail(&OracleFail{"C11", "gfm-differs-from-members", fmt.Sprintf("option set %d source %q: GFM %q members %q", i, src, w.Bytes(), outs[i])})
+				break
+			}
+		}
+		res.Stats = append(res.Stats, "gfm-vs-members-checked")
+	}
+	if cfg&8 != 0 && bytes.Contains(outs[4], []byte("<a href=")) && !bytes.Contains(src, []byte("](")) && !bytes.Contains(src, []byte("<")) {
+		res.Stats = append(res.Stats, "docs-with-linkified-url")
+	}
 	tags := cvTagRe(outs[4])
 	if tags["del"] > 0 {
 		res.Stats = append(res.Stats, "docs-with-del")
@@ -299,7 +366,7 @@ func implConvertX(c Case) ImplResult {
 	if tags["input"] > 0 && cfg&2 != 0 {
 		res.Stats = append(res.Stats, "docs-with-checkbox")
 	}
-	if len(tags) >= 2 && (tags["del"] > 0 || tags["table"] > 0 || (tags["input"] > 0 && cfg&2 != 0)) {
+	if len(tags) >= 2 && (tags["del"] > 0 || tags["table"] > 0 || (tags["input"] > 0 && cfg&2 != 0) || (cfg&8 != 0 && tags["a"] > 0)) {
 		var ks []string
 		for k, v := range tags {
 			ks = append(ks, fmt.Sprintf("%s=%d", k, v))
@@ -307,6 +374,50 @@ func implConvertX(c Case) ImplResult {
 		sort.Strings(ks)
 		res.Key = fmt.Sprintf("%d:", cfg) + strings.Join(ks, ",")
 	}
+	return res
+}
+
+// op `htmlf`: the consultation without the parser (cvxNullParser) next to member set cfg < 8, against
+// GM.ConvertX.convertFlush; oracle on the real outputs: the same HTML as the member set alone
+func implConvertXFlush(c Case) ImplResult {
+	cfg := 0
+	fmt.Sscanf(c.Args[0], "%d", &cfg)
+	cfg &= 7
+	src := unhx(c.Args[1])
+	var res ImplResult
+	outs := make([][]byte, 8)
+	for i := 0; i < 8; i++ {
+		o, f := cvxConvertWith(cvxNull[cfg][i], cfg, i, src)
+		outs[i] = o
+		if f != nil && len(res.Fails) < 3 {
+			res.Fails = append(res.Fails, *f)
+		}
+	}
+	sets := []int{0, 7}
+	if len(src) <= 64 {
+		sets = []int{0, 1, 2, 3, 4, 5, 6, 7}
+	}
+	for _, i := range sets {
+		o, _ := cvxConvert(cfg, i, src)
+		if !bytes.Equal(o, outs[i]) {
+			res.Fails = append(res.Fails, OracleFail{"C11", "consultation-flush-changes-output",
+				fmt.Sprintf("cfg %d option set %d source %q: with the nil parser %q without %q", cfg, i, src, outs[i], o)})
+			break
+		}
+	}
+	res.Stats = append(res.Stats, "flush-vs-plain-checked")
+	parts := make([]string, 8)
+	for i := 0; i < 8; i++ {
+		parts[i] = hx(outs[i])
+		for j := 0; j < i; j++ {
+			if bytes.Equal(outs[i], outs[j]) {
+				parts[i] = fmt.Sprintf("=%d", j)
+				break
+			}
+		}
+	}
+	res.Out = "g0 " + strings.Join(parts, " ")
+	res.ModelLine = "convertx htmlf " + fmt.Sprint(cfg) + " " + c.Args[1] + " " + cvUC(src)
 	return res
 }
 
@@ -337,7 +448,25 @@ var cvxTokens = []string{
 	"|", "| ", " |", "|-|", "-|-", ":-|-:", "|:-:|", "---", "a|b", "| a | b |", "`|`", "`\\|`", "\\|", ":", "-", "#", "# ", "```\n", "<a>", "&amp;",
 }
 
+var cvxLinkAlphabet1 = syms("http://", "a", ".", "b", "/", ")", "(", " ", ";", "&")
+var cvxLinkAlphabet2 = syms("www.", "a", ".", "b", "@", " ", "-", "_", ":", "1")
+var cvxLinkTails = syms(".", ")", "(", ";", "&", "a", "/", "?", "!", ",", " ", ":", "*", "_", "~", "'", "1", "\n")
+var cvxLinkHeads = []string{"http://a.bc", "www.a.bc", "x@y.zz", "https://a.b.cd:80", "(ftp://a.bc/d", "*www.a.bc", "[http://a.bc", "\"www.a.bc", "x\"http://a.bc", "a:www.a.bc"}
+
+var cvxLinkTokens = []string{
+	"http://", "https://", "ftp://", "http:", "www.", "a.b", "ex.com", "a@b.cd", "@", ":", ":80", "/p", "/p?q=1&r", "#f", "&amp;", "&amp", ";", ")", "(", "()", ".", ",", "!", "?",
+	"*", "_", "~", "~~", " ", "\n", "\t", "[", "]", "](/u)", "<", ">", "`", "\\", "x", "Y", "1", "-", "é", "mailto:", "HTTP://A.B", "www.a.B", "www.a.b1", "http://a", "http://a.b:c", "a@b", "a@b.c-", "a@b.c_d", ".a@b.cd",
+}
+
 var cvxFixed = []string{
+	// the escaped flag across a line end (repo fix 24c9f23): a backslash-ended line in front of a trigger at a line head
+	"a\\\n~b~\n", "a\\\n*b* ~~c~~\n", "- a\\\n  [x] y\n", "a\\\nwww.a.bc x\\\nhttp://d.ef\n", "a|b\n-|-\nc\\|d\\\n~e~|f\n", "a \\\n ~b~\n", "a\\  \n~b~\n", "a\\  \n*b* [c](/u)\n", "- a\\  \n  ~b~\n", "a\\\r\n~b~\n", "a\\   \nwww.a.bc\n", "a\\  \n\\~b~\n", "~a\\  \n\\~\n", "- a\\  \n  \\[x](/u) \\|\n", "a|b\\  \n-|-\n", "*a\\  \n\\*\n",
+	"www.commonmark.org\n", "Visit www.commonmark.org/help for more information.\n", "Visit www.commonmark.org.\n\nVisit www.commonmark.org/a.b.\n", "www.google.com/search?q=Markup+(business)\n\nwww.google.com/search?q=Markup+(business)))\n\n(www.google.com/search?q=Markup+(business))\n\n(www.google.com/search?q=Markup+(business)\n",
+	"www.google.com/search?q=(business))+ok\n", "www.google.com/search?q=commonmark&hl=en\n\nwww.google.com/search?q=commonmark&hl;\n", "www.commonmark.org/he<lp\n", "http://commonmark.org\n\n(Visit https://encrypted.google.com/search?q=Markup+(business))\n",
+	"foo@bar.baz\n", "hello@mail+xyz.example isn't valid, but hello+xyz@mail.example is.\n", "a.b-c_d@a.b\n\na.b-c_d@a.b.\n\na.b-c_d@a.b-\n\na.b-c_d@a.b_\n", "[www.a.bc](/u) [x www.a.bc\n", "*www.a.bc* _http://a.bc_ ~~ftp://a.bc~~ (www.a.bc)\n",
+	"www.a@b.Cd www.a@b.cd\n", "http://a.bc&amp; http://a.bc/&amp; http://a.bc/x&y; http://a.bc/;\n", "http://a.b.c.d.ef:8080/p?q#r http://a.bc:x http://a.bc: http://a.bc:1a\n", "- [ ] www.a.bc\n- [x] http://a.bc|\n\nwww.a.bc|http://d.ef\n-|-\n",
+	"www.a.bc\nhttp://d.ef  \nx@y.zz\\\n", "# www.a.bc #\n", "> www.a.bc\n", "`www.a.bc` <www.a.bc> <http://a.bc>\n", "www." + strings.Repeat("a", 300) + ".bc www." + strings.Repeat("a", 255) + ".bc http://" + strings.Repeat("a.", 200) + "bc\n",
+
 	"~~Hi~~ Hello, ~there~ world!\n", "This ~~has a\n\nnew paragraph~~.\n", "This will ~~~not~~~ strike.\n", "~a~~ ~~a~ ~~a~~~ ~~~a~~ a~~b~~c a ~~ b ~~\n",
 	"*~a*~ ~*a~* **~~a**~~ ~~**a~~**\n", "[~~a~~](/u) ~~[a](/u)~~ ~[a~](/u) [a~](/u)~ ![~a~](/u)\n", "~`a~`~ `~a~` ~<b>~ <~a~>\n", "\\~a~ ~a\\~ ~~a\\~~\n",
 	"~é~ é~é~é ~ é~ ~.a~ .~a~. a~.~\n", "~~~\ncode\n~~~\n", "~~~a~~~\n", "~~ a ~~\n", "# ~~h~~\n", "> ~~q~~\n", "- ~~l~~\n- ~l\n  l~\n",
@@ -365,9 +494,13 @@ func genConvertX(tier string, rng *RNG, emit func(Case)) {
 		h := hx(b)
 		for _, c := range cfgs {
 			emit(Case{Op: "html", Args: []string{fmt.Sprint(c), h}})
+			if c >= 8 {
+				// the same document through the consultation without the parser
+				emit(Case{Op: "htmlf", Args: []string{fmt.Sprint(c & 7), h}})
+			}
 		}
 	}
-	all := []int{0, 1, 2, 3, 4, 5, 6, 7}
+	all := []int{0, 1, 2, 3, 4, 5, 6, 7, 8, 15}
 	// 1. exhaustive small scopes
 	enumStrings(cvxStrikeAlphabet, pick(5, 6), func(b []byte) { doc([]int{1}, b) })
 	enumStrings(cvxStrikeAlphabet, pick(4, 5), func(b []byte) { doc([]int{3, 5, 7}, b) })
@@ -390,6 +523,13 @@ func genConvertX(tier string, rng *RNG, emit func(Case)) {
 				doc([]int{4}, d)
 			}
 		})
+	}
+	// 1b. Linkify: URL alphabets (complete), tails behind fixed heads (complete)
+	enumStrings(cvxLinkAlphabet1, pick(4, 5), func(b []byte) { doc([]int{8, 15}, b) })
+	enumStrings(cvxLinkAlphabet2, pick(4, 5), func(b []byte) { doc([]int{8}, b) })
+	for _, h := range cvxLinkHeads {
+		h := h
+		enumStrings(cvxLinkTails, pick(2, 3), func(b []byte) { doc([]int{8, 15}, []byte(h+string(b))) })
 	}
 	// 2. spec.json, corpora (extension/_test/{strikethrough,tasklist,table}.txt among them), fixed
 	for _, e := range SpecExamples() {
@@ -472,10 +612,15 @@ func genConvertX(tier string, rng *RNG, emit func(Case)) {
 		default:
 			d = randString(rng, toks, 14)
 		}
+		if rng.Intn(6) == 0 {
+			d = randString(rng, syms(cvxLinkTokens...), 10)
+			doc([]int{8 + rng.Intn(8), 15}, d)
+			continue
+		}
 		if rng.Chance(20) {
 			doc(all, d)
 		} else {
-			doc([]int{rng.Intn(8)}, d)
+			doc([]int{rng.Intn(16)}, d)
 		}
 	}
 }
